@@ -1122,16 +1122,16 @@ package graphql
 //@   props C02
 //@   nosafety
 //@   opt invoke.GetKind=pure
-//@   loop 1 invariant 0 <= operationCount && operationCount <= rangeindex + 1
+//@   loop 1 invariant 0 <= operationCount && operationCount <= rangeindex + 1 && rangeindex + 1 <= len(as(p.Node, "*ast.Document").Definitions)
 //@   ensures typeis(p.Node, "*ast.Document") ==> 0 <= operationCount && operationCount <= len(as(p.Node, "*ast.Document").Definitions)
 
 // KnownFragmentNames: a spread is reported exactly when the document defines no fragment of that name.
 //@ func KnownFragmentNamesRule$1
 //@   props C02
 //@   nosafety
-//@   assigns class:M|, class:E|, class:graphql.ValidationContext
-//@   ensures typeis(p.Node, "*ast.FragmentSpread") && lastresult("Fragment") == nil ==> calls("reportError") == 1
-//@   ensures typeis(p.Node, "*ast.FragmentSpread") && lastresult("Fragment") != nil ==> calls("reportError") == 0
+//@   ensures calls("Fragment") == 1 && lastresult("Fragment") == nil ==> calls("reportError") == 1
+//@   ensures calls("Fragment") == 1 && lastresult("Fragment") != nil ==> calls("reportError") == 0
+//@   ensures typeis(p.Node, "*ast.FragmentSpread") ==> calls("Fragment") == 1
 //@   ensures !typeis(p.Node, "*ast.FragmentSpread") ==> calls("reportError") == 0 && calls("Fragment") == 0
 //@   at call Fragment: assert node.Name != nil ==> arg1 == node.Name.Value
 
@@ -1141,10 +1141,12 @@ package graphql
 //@   props C02
 //@   nosafety
 //@   assigns class:graphql.ValidationContext, class:E|
-//@   ensures typeis(p.Node, "*ast.Field") && as(p.Node, "*ast.Field") != nil && !isnil(lastresult("Type")) && IsLeafType_0(lastresult("Type")) && as(p.Node, "*ast.Field").SelectionSet != nil ==> calls("reportError") == 1
-//@   ensures typeis(p.Node, "*ast.Field") && as(p.Node, "*ast.Field") != nil && !isnil(lastresult("Type")) && !IsLeafType_0(lastresult("Type")) && as(p.Node, "*ast.Field").SelectionSet == nil ==> calls("reportError") == 1
-//@   ensures typeis(p.Node, "*ast.Field") && as(p.Node, "*ast.Field") != nil && !isnil(lastresult("Type")) && (IsLeafType_0(lastresult("Type")) <==> as(p.Node, "*ast.Field").SelectionSet == nil) ==> calls("reportError") == 0
-//@   ensures typeis(p.Node, "*ast.Field") && as(p.Node, "*ast.Field") != nil && isnil(lastresult("Type")) ==> calls("reportError") == 0
+//@   ensures calls("Type") == 1 && !isnil(lastresult("Type")) && IsLeafType_0(lastresult("Type")) && as(p.Node, "*ast.Field").SelectionSet != nil ==> calls("reportError") == 1
+//@   ensures calls("Type") == 1 && !isnil(lastresult("Type")) && !IsLeafType_0(lastresult("Type")) && as(p.Node, "*ast.Field").SelectionSet == nil ==> calls("reportError") == 1
+//@   ensures calls("Type") == 1 && !isnil(lastresult("Type")) && (IsLeafType_0(lastresult("Type")) <==> as(p.Node, "*ast.Field").SelectionSet == nil) ==> calls("reportError") == 0
+//@   ensures calls("Type") == 1 && isnil(lastresult("Type")) ==> calls("reportError") == 0
+//@   ensures typeis(p.Node, "*ast.Field") && as(p.Node, "*ast.Field") != nil ==> calls("Type") == 1
+//@   ensures calls("Type") == 0 ==> calls("reportError") == 0
 //@ func IsLeafType
 //@   trusted
 //@   functional
